@@ -336,7 +336,9 @@ func unitReplay(opts *RunOpts, w *World, q *Oblig) (out *ReplayOutcome) {
 			case specPanic:
 				out = &ReplayOutcome{Note: "replay not possible: " + p.msg}
 			default:
-				panic(r)
+				// a replay must never take the check down: the violation stands, the
+				// replay is reported as not possible
+				out = &ReplayOutcome{Note: fmt.Sprintf("replay not possible: the concrete re-run failed (%v)", r)}
 			}
 		}
 	}()
